@@ -19,6 +19,14 @@ INFO = {
  "C16": ("same change as C02's seed, found independently: truncated index loses place value", "a string ending inside the index of [Ring2]/[Ring3]", True, "first run ended with a harness error (the unit harness saw it, the concrete oracle did not go through the decoder); caught after truncated indices were added to the end-to-end part and the oracle replays them through selfies.decoder"),
  "C17": ("decoder's per-fragment attribution offset advances by len_selfies(fragment), which counts [nop]", "attribute=True, several fragments, a [nop] in a fragment that is not the last", False, ""),
  "C18": ("memo cache in modernize_symbol keyed on the atom body without its bond prefix", "the same [...expl] atom body with two different bond prefixes in one process", False, ""),
+ "C01_2": ("get_bonding_capacity uses `table.get(key) or table['?']` (same slip as C07's seed, found independently)", "an accepted table with a capacity-0 entry and an input using that atom", False, ""),
+ "C02_2": ("rings_made counters incremented also when a ring symbol merges into an existing bond; _add_bond_at_loc made tolerant of the resulting position", "a ring symbol on an already bonded pair followed by a real ring bond at one of the two atoms, which also has a branch", True, "missed at N<=4 (needs 8 symbols); caught after adding the ring-placement step lemma (1-3 solver-chosen ring candidates on a chain with a branch; out-bond order must be rings first in formation order) with a decoder-level witness"),
+ "C03_2": ("implicit-aromatic test for ring closures looks only at the opening label's bond symbol", "a fusion bond between aromatic atoms written with '-' on the closing label only (c1cc2ncoc-2cc1)", True, "caught after the fused-closure templates (bond symbol on opening / closing label) were added to C03"),
+ "C04_2": ("add_ring_bond flags atom a twice instead of a and b: the closing atom is never considered for inversion", "a chiral ring-closing atom whose closure digit is written after an odd number of branches", False, ""),
+ "C05_2": ("_prune_from_ds bracket branch returns `free_electrons != 1`", "a pyridine-type n/p/as written as a bracket atom without H or charge ([n], [15n])", True, "caught after [n] (and [c], p, s(=O) in the thorough tier) were added to the ring-atom kinds"),
+ "C10_2": ("the 'too many H' rejection is cached per symbol text and survives a table change", "a failed decode of an over-hydrogenated symbol, then a table that makes it legal, then an encode of that atom", True, "missed (no table change in C10); caught after the 'decode under A, set B, round trip under B' part was added"),
+ "C14_2": ("split_selfies refreshes its dot index before advancing: only the first dot of a string is recognised", "a well-formed string with at least two dots", False, ""),
+ "C15_2": ("one-hot rows cached by index only, not by vocabulary size", "two vocabularies of different sizes used in one process", True, "missed (one vocabulary per path, and the per-path reset restores module state); caught after the 'two vocabularies in sequence' part was added"),
 }
 only = sys.argv[1:]
 for label in sorted(os.listdir(os.path.join(HERE, "seeded"))):
